@@ -103,10 +103,11 @@ class ConfigImpl:
         c = self.cfg0
         self.obj = self._construct(self._ms(c["dt"]), self._ms(c["delay"]), c["batchsz"], c["inplace"],
                                    self._ms(c["dur"]), c["incl"], c["syn"], "f32")
-        if self.kind == "reducer":
-            # storage of a reducer exists only after the first observation; the temporal setters of
-            # RecordTensor refuse uninitialised storage when the size changes (C13 finding D5):
-            # work around by observing once before re-configuring
+        if self.kind == "reducer" and hdr.get("warm", True):
+            # storage of a reducer exists only after the first observation.  On trees where the
+            # temporal setters of RecordTensor refuse uninitialised storage when the size changes
+            # (C13 finding D5) reducers can only be re-configured after observing once; where that
+            # is repaired both the observed and the never-observed reducer are exercised
             self.obj(torch.zeros(2, 3))
 
     def _ms(self, ticks):
@@ -354,3 +355,14 @@ def _brief(x):
     if isinstance(x, torch.Tensor):
         return {"shape": list(x.shape), "dtype": str(x.dtype), "head": x.detach().reshape(-1)[:6].tolist()}
     return repr(x)
+
+
+def unshaped_reconfigurable() -> bool:
+    """Can a reducer that has not observed anything have its duration changed?  (C13, D5)"""
+    try:
+        r = make_reducer("PassthroughReducer", 1.0, 2.0, False, False)
+        r.duration = 4.0
+        r.dt = 0.5
+        return True
+    except RuntimeError:
+        return False
